@@ -511,3 +511,5 @@ def scaling_equal(m1, m2):
 
 def crash_sig(case, ex, where, tb):
     return "C18_crash:%s@%s" % (type(ex).__name__, where)
+
+RULE += (" " + 'Removal index lists in arbitrary / descending order and as numpy integers; integer-typed sample arrays.')
